@@ -16,6 +16,13 @@ def mut(id, props, file, edits, expect=(), kind='break', note=''):
                     'expect': list(expect), 'note': note})
 
 
+def twin(id, props, commit, expect=(), note=''):
+    """Pre-fix twin: /repo with the given `fix:` commit reverted."""
+    MUTANTS.append({'id': id, 'kind': 'break', 'props': list(props),
+                    'revert': commit, 'file': None, 'edits': [],
+                    'expect': list(expect), 'note': note})
+
+
 # ---- C01 / C02 ------------------------------------------------------------
 mut('c01-be-int16-dec', ['C01', 'C02'], M,
     [("return 2, struct.unpack_from(lendian and '<h' or '>h', data, offset)[0]",
@@ -306,6 +313,36 @@ mut('c03-parse-endian-inverted', ['C03'], MS,
     note='equivalent for the two valid endian bytes')
 mut('c03-serial-slot-wrong', ['C03'], MS,
     [("    m.serial = hval[5]", "    m.serial = hval[4]")], ['C03.D3'])
+
+# ---- C04 ------------------------------------------------------------------
+twin('c04-prefix-recursive-drain', ['C04'], 'feeb750', ['C04.D4'],
+     'pre-fix twin: RecursionError after ~990 coalesced messages')
+twin('c04-prefix-line-loop-after-switch', ['C04'], 'f24ed60', ['C04.D5'],
+     'pre-fix twin: BEGIN + binary data containing CRLF in one read')
+mut('c04-endian-not-reset', ['C04'], PR,
+    [("                    if self._buffer[:1] != b'l':\n                        self._endian = '>'\n                    else:\n                        self._endian = '<'\n",
+      "                    if self._buffer[:1] != b'l':\n                        self._endian = '>'\n")], ['C04.D1'],
+    note='a big-endian message makes all later little-endian ones misframed')
+mut('c04-no-drain', ['C04'], PR,
+    [("                self._nextMsgLen = 0\n\n                self.rawDBusMessageReceived(raw_msg)\n",
+      "                self._nextMsgLen = 0\n\n                self.rawDBusMessageReceived(raw_msg)\n                break\n")], ['C04.D3'])
+mut('c04-len-of-data', ['C04'], PR,
+    [("                buffer_len = len(self._buffer)\n", "                buffer_len = len(self._buffer) if self._nextMsgLen else len(data)\n")], ['C04.D2'])
+mut('c04-header-at-12', ['C04'], PR,
+    [("                if self._nextMsgLen == 0 and buffer_len >= 16:", "                if self._nextMsgLen == 0 and buffer_len >= 12:")], ['C04.D2'])
+mut('c04-padding-mod-4', ['C04'], PR,
+    [("                    padlen = hlen % 8 and (8 - hlen % 8) or 0", "                    padlen = hlen % 4 and (4 - hlen % 4) or 0")], ['C04.D1'])
+mut('c04-reset-after-delivery', ['C04'], PR,
+    [("                self._nextMsgLen = 0\n\n                self.rawDBusMessageReceived(raw_msg)\n", "                self.rawDBusMessageReceived(raw_msg)\n\n                self._nextMsgLen = 0\n")], ['C04.D2'])
+mut('c04-body-len-offset', ['C04'], PR,
+    [("self._endian + 'I', self._buffer[4:8])[0]", "self._endian + 'I', self._buffer[8:12])[0]")], ['C04.D1'])
+mut('c04-line-no-return-after-switch', ['C04'], PR,
+    [("                            if self._buffer:\n                                self.dataReceived(b'')\n                            return\n", "                            if self._buffer:\n                                self.dataReceived(b'')\n")], ['C04.D5'])
+mut('c04-line-rsplit', ['C04'], PR,
+    [("                line, _, self._buffer = self._buffer.partition(\n                    self.authDelimiter)", "                line, _, self._buffer = self._buffer.rpartition(\n                    self.authDelimiter)")], ['C04.D5'])
+mut('ok-c04-while-condition', ['C04'], PR,
+    [("                if self._nextMsgLen == 0 or buffer_len < self._nextMsgLen:\n                    # no complete message buffered\n                    break\n",
+      "                if not self._nextMsgLen:\n                    break\n                if buffer_len < self._nextMsgLen:\n                    break\n")], kind='benign')
 
 # benign variants --------------------------------------------------------------
 mut('ok-int16-condexpr', ['C01', 'C02'], M,
